@@ -22,6 +22,12 @@ Protocol(c) ==
     [] c.func \in PerCell   -> [kind |-> "blocks", exact |-> TRUE, ry |-> 0, rx |-> 0, passes |-> 1]
     [] c.func \in Reduced   -> [kind |-> "blocks", exact |-> FALSE, ry |-> 0, rx |-> 0, passes |-> 1]
 
+\* admissible rounding, in spacings of the largest magnitude of the reference: a re-associated global reduction
+\* costs a few ulp; generate_terrain sums 16 noise layers in single precision, cubes the sum and normalises it,
+\* which amplifies that rounding (observed up to 13 on the unchanged tree), a wrong block offset or seed gives
+\* differences of the order of the whole range
+Tol(c) == IF c.func = "generate_terrain" THEN 64 ELSE IF c.func = "perlin" THEN 16 ELSE 4
+
 Verdict(c) ==
   LET p == Protocol(c) IN
   IF c.error # "" THEN "dask_call_raised"
@@ -30,7 +36,7 @@ Verdict(c) ==
   ELSE IF c.ndiff = 0 THEN "ok"
   ELSE IF p.exact THEN (IF c.ndiff_near = c.ndiff_cells THEN "differs_from_numpy_at_block_edges"
                         ELSE "differs_from_numpy")
-  ELSE IF c.maxulp <= 4 THEN "ok"
+  ELSE IF c.maxulp <= Tol(c) THEN "ok"
   ELSE IF c.ndiff_cells <= c.ndiff_borderline THEN "ok"
   ELSE "differs_from_numpy_beyond_float_rounding"
 
